@@ -1,20 +1,58 @@
 """C02 - valid use never leaves the caller's memory, never allocates, never hits UB.
-TLA+ cannot observe memory: the specification supplies the *histories and inputs* (same models as the
-behavioural properties) and the relations on what may be written / allocated; ASan + UBSan, guard bytes and
-an operator-new monitor supply the observation. A sanitizer stop inside a call the model considers valid is
-a `trap` event, which no action of the specification enables."""
+TLA+ cannot observe memory: the specification supplies the *histories and inputs* (the same models as the
+behavioural properties, so the exploration is exhaustive inside their bounds) and the relations on what may
+be written / allocated; ASan + UBSan, guard bytes / canaries and an operator-new monitor supply the
+observation. A sanitizer stop inside a call the model considers valid is a `trap` / `crash` event, which no
+action of the specification enables. Families: vector (always), string_view, C strings, charconv, bitset
+(quick), plus sets, algorithms, inplace_string, optional/variant/expected (thorough)."""
+import os
+import vlib
 from pipes import vector
+
+LEVEL = "exploration"
+MEM_KINDS = ("trap", "crash", "canary", "hang")
+QUICK = ("stringview", "clib", "intconv", "bitset")
+THOROUGH = QUICK + ("set", "algo", "string", "sum")
 
 
 def _mine(d):
-    ev = d.get("ev", {})
-    return d["kind"].startswith("mem") or d["kind"] == "trap" or ev.get("op") == "ctor_dinit" or d["kind"] == "obs" and "corrupt" in str(ev.get("obs"))
+    ev = d.get("ev", {}) or {}
+    k = d["kind"]
+    return (k.startswith("mem") or any(x in k for x in MEM_KINDS) or ev.get("op") == "ctor_dinit"
+            or (k == "obs" and "corrupt" in str(ev.get("obs"))))
+
+
+def _sanitized(name):
+    def run(tier, sub):
+        mod = __import__("pipes." + name, fromlist=["pipeline"])
+        try:
+            mod.pipeline(tier, sub, calibrate=False)
+        except vlib.ModelFailure as e:
+            msg = str(e)
+            if "AddressSanitizer" in msg or "runtime error" in msg or "UndefinedBehaviorSanitizer" in msg:
+                # the driver was stopped by a sanitizer and has no containment of its own
+                rep_line = next((l for l in msg.splitlines() if "ERROR" in l or "runtime error" in l), msg[-300:])
+                sub.devs.append({"line": 0, "kind": "trap", "module": name, "expected": "-",
+                                 "ev": {"op": "sanitizer-stop", "inst": name, "report": rep_line[:400]}})
+            else:
+                raise
+    return run
 
 
 def run(tier, rep):
     vector.memory_pipeline(tier, rep)
+    os.environ["VERIF_SANITIZE"] = "1"
+    os.environ["VH_DOMAIN_ONLY"] = "1"     # drivers skip calls whose validity they cannot decide (unchecked parse)
+    names = [n for n in (QUICK if tier == "quick" else THOROUGH) if os.path.exists(os.path.join(os.path.dirname(__file__), "..", "pipes", n + ".py"))]
+    before = rep.cov["events_validated"]
+    btr = rep.cov["traces_validated_against_impl"]
+    vlib.run_pipelines(rep, [(n, _sanitized(n)) for n in names], tier)
+    rep.cov["evaluations"] = rep.cov.get("evaluations", 0) + rep.cov["events_validated"] - before
+    rep.cov["distinct_nontrivial"] = rep.cov.get("distinct_nontrivial", 0) + rep.cov["traces_validated_against_impl"] - btr
+    rep.cov["rule"] = rep.cov.get("rule", "") + (" Other families (%s): the inputs/histories their TLA+ models export, replayed in the sanitizer build; "
+                                                 "cases counted as the pipelines count validated traces/inputs." % ", ".join(names))
+    rep.cov["sanitized_families"] = ["vector"] + names
     rep.devs = [d for d in rep.devs if _mine(d)]
     rep.assumptions += ["reads of uninitialised memory are only caught when they change a projected result or the size (no MSan runtime for libstdc++ here)",
                         "UB outside what ASan/UBSan model is not observed",
-                        "allocation monitor = replaced global operator new; a direct malloc() call would be missed"]
-LEVEL = "exploration"
+                        "allocation monitor = replaced global operator new (vector family); a direct malloc() call would be missed"]
